@@ -165,3 +165,26 @@ Theorem C17_callback_is_the_local_function : forall t v i,
   lookup (ensure t (DisjointLocal.target v)) (DisjointLocal.target v) = Some i -> cb_of t v = lcb (DisjointLocal.target v) i v.
 Proof. exact cb_of_lcb. Qed.
 Print Assumptions C17_callback_is_the_local_function.
+
+(* all_find.  After a barrier, all_find(items) sends one walk per item up the parent links (find_rep_functor); where it
+   reaches a root it answers the caller and writes the root back as the item's parent (local_set_parent: path compression).
+   Along every delivery order of these messages, from any forest t0 satisfying the invariant: every answer is the root the
+   item had in t0; compression keeps the invariant and never changes any item's root; once nothing is pending every item has
+   been answered exactly as often as it was requested; hence equal representatives == same set. *)
+From Ygm Require Import DisjointFind.
+Theorem C17_all_find_answers_are_roots : forall t0, Inv t0 -> forall items t pool res,
+  fsteps (start t0 items) (t, pool, res) ->
+  (forall x rep, In (x, rep) res -> root t0 x rep) /\ Inv t /\ (forall a b, conn t a b <-> conn t0 a b).
+Proof. exact all_find_answers_are_roots. Qed.
+Print Assumptions C17_all_find_answers_are_roots.
+
+Theorem C17_all_find_complete : forall t0, Inv t0 -> forall items t res,
+  fsteps (start t0 items) (t, [], res) ->
+  forall x, got x res = wanted items x /\ forall rep, In (x, rep) res -> root t0 x rep.
+Proof. exact all_find_complete. Qed.
+Print Assumptions C17_all_find_complete.
+
+Theorem C17_all_find_equal_reps_iff_connected : forall t0, Inv t0 -> forall items t pool res x y rx ry,
+  fsteps (start t0 items) (t, pool, res) -> In (x, rx) res -> In (y, ry) res -> (rx = ry <-> conn t0 x y).
+Proof. exact all_find_equal_reps_iff_connected. Qed.
+Print Assumptions C17_all_find_equal_reps_iff_connected.
